@@ -38,7 +38,8 @@ def kf_match(known, v):
     same value in the violation's signature (call site + input class computed by the check)"""
     for k in known:
         sig = k["sig"]
-        if all(_sig_eq(v.sig.get(key), val) for key, val in sig.items()):
+        have = dict(v.sig or {}, kind=v.kind)
+        if all(_sig_eq(have.get(key), val) for key, val in sig.items()):
             return k
     return None
 
